@@ -1153,6 +1153,7 @@ bool ScriptVM::Process(ScriptContext& context, uinttime_t interruptTime)
         {
             if (!GetScriptClass()->GetSelf())
             {
+                skipField();
                 throw ScriptException("self is NULL");
             }
 
